@@ -36,6 +36,8 @@ FIRST_MISS = {
  "C20-r4m1": "Iterator provided methods (last, count, fold ...) on Windower / Window",
  "C20-r4m2": "clone-and-continue action for Windower / Window",
  "C20-r4m3": "public fields bin / hop / frames assigned between chunks (SetBin / SetHop / SetFrames actions)",
+ "C06-r4m2": "(covered from the agent's report, before intake) provided Iterator methods of the draining iterator as queue actions",
+ "C09-r4m2": "(covered from the agent's report, before intake) the free function dasp_graph::process driven alternately with the method",
  "C09-r3m1": "nodes without buffers anywhere in random graphs (counted per incoming edge when they are inputs)",
 }
 rows = []
